@@ -176,7 +176,7 @@ def derived_checkers(prog):
             dom = f.dominators()
             cands = [(b, i, e) for b, i, e in f.calls() if e.get("callee") in chk and e.get("use") not in ("discarded", "voidcast")]
             for b, i, e in cands:
-                rets = [rb for rb, ri, re in f.returns()]
+                rets = [rb for rb, ri, re in f.returns() if rb.id in dom]      # blocks the front end pruned as unreachable (constant conditions in macros) do not count
                 if not rets:
                     continue
                 if all(rb.id in dom and (b.id in dom[rb.id]) for rb in rets):
